@@ -153,8 +153,6 @@ func markLeaked() {
 	}
 }
 
-// leakClass derives the violation key of a leak from the stuck stacks and from
-// what happened in the run: one defect = one class.
 // panicWriteOrigin tells which goroutine of the call is parked in onceChan.write
 // (the unbuffered hand-over of a recovered panic to the caller), if any.
 func (r *run) panicWriteOrigin(gs []kit.Goroutine) string {
@@ -182,11 +180,30 @@ func (r *run) panicWriteOrigin(gs []kit.Goroutine) string {
 	return origin
 }
 
+// pwClass maps the goroutine parked in onceChan.write to a defect class: a user
+// panic that nobody will ever receive, or the runtime's "send on closed channel"
+// raised inside guardedWriter.Write (recovered by the reducer goroutine).
+func (r *run) pwClass(gs []kit.Goroutine) string {
+	origin := r.panicWriteOrigin(gs)
+	if origin == "" {
+		return ""
+	}
+	for _, g := range gs {
+		if strings.Contains(g.Stack, "onceChan).write") && strings.Contains(g.Stack, "runtime.chansend") && strings.Contains(g.Stack, "guardedWriter") {
+			return "send-on-closed-channel"
+		}
+	}
+	if origin == "reducer-runtime-panic" || origin == "other" {
+		return "non-user-panic"
+	}
+	return "user-panic"
+}
+
 // leakClass derives the violation key of a leak from the stuck stacks and from
 // what happened in the run: one defect = one class.
 func (r *run) leakClass(gs []kit.Goroutine) string {
-	if origin := r.panicWriteOrigin(gs); origin != "" {
-		return "C10/leak/panic-write-blocked/" + origin
+	if c := r.pwClass(gs); c != "" {
+		return "C10/leak/panic-write-blocked/" + c
 	}
 	var tops []string
 	for _, g := range gs {
@@ -196,19 +213,18 @@ func (r *run) leakClass(gs []kit.Goroutine) string {
 	return "C10/leak/" + kit.KeyPart(tops[0])
 }
 
-// deadlockClass: where the caller is parked, and what it is (transitively) waiting for.
+// deadlockClass: what the caller is (transitively) waiting for, else where it is parked.
 func (r *run) deadlockClass(gs []kit.Goroutine) string {
+	if c := r.pwClass(gs); c != "" {
+		return "C10/deadlock/panic-write-blocked/" + c
+	}
 	caller := "unknown"
 	for _, g := range gs {
 		if strings.Contains(g.Stack, "c10.(*run).invoke") {
 			caller = frames(g.Stack, 1)
 		}
 	}
-	key := "C10/deadlock/caller-in-" + kit.KeyPart(caller)
-	if origin := r.panicWriteOrigin(gs); origin != "" {
-		key += "/" + origin + "-write-blocked"
-	}
-	return key
+	return "C10/deadlock/caller-in-" + kit.KeyPart(caller)
 }
 
 func (r *run) panicsCopy() []panicEv {
